@@ -1846,6 +1846,7 @@ func (m *Matcher) checkCountLink(st state, wl, rl *Loop, wfr, rfr *frame) {
 	}
 	m.clampedCount(wfr, wl, rl, rfr)
 	m.readerClampedCount(wl, rl, wfr, rfr)
+	m.writerSelection(wl, rl, wfr, rfr)
 	wk := m.loopKeyW(wfr, wl)
 	var rkey interface{}
 	var prefer interface{}
@@ -2768,6 +2769,97 @@ func (m *Matcher) clampedCount(wfr *frame, wl, rl *Loop, rfr *frame) {
 	})
 	if sized && clamp != "" {
 		m.fail("omission", wl, rl, wfr, rfr, "the writer's repetition count %s starts as the size of the collection and is overwritten with %s on some path: the elements beyond it are never written", id.Name, clamp)
+	}
+}
+
+// writerSelection: the writer's repetition runs over a local that a function of the module built from
+// a container of the object by leaving elements out on a condition (a loop over the field with a
+// `continue`, or an append under an if): the elements left out are never written, so what is decoded
+// is not what was put in.
+func (m *Matcher) writerSelection(wl, rl *Loop, wfr, rfr *frame) {
+	var src ast.Expr
+	switch {
+	case wl.Range != nil:
+		src = wl.Range
+	case wl.Bound != nil:
+		src = wl.Bound
+	}
+	if src == nil {
+		return
+	}
+	info := wfr.ctx.Info
+	// the local the loop runs over (directly, or through len(local))
+	var loc types.Object
+	ast.Inspect(src, func(n ast.Node) bool {
+		if id, ok := n.(*ast.Ident); ok && loc == nil {
+			if o := info.ObjectOf(id); o != nil && isLocalVar(o) {
+				if _, isSl := o.Type().Underlying().(*types.Slice); isSl {
+					loc = o
+				}
+			}
+		}
+		return true
+	})
+	if loc == nil {
+		return
+	}
+	d := wfr.ctx.singleDef(loc)
+	if d == nil {
+		return
+	}
+	call, ok := stripConv(wfr.ctx, d).(*ast.CallExpr)
+	if !ok {
+		return
+	}
+	fn := calleeOf(info, call)
+	cfi := m.X.P.FuncOf(fn)
+	if cfi == nil || cfi.Decl.Body == nil {
+		return
+	}
+	cinfo := cfi.Pkg.TypesInfo
+	selects, field := false, ""
+	ast.Inspect(cfi.Decl.Body, func(n ast.Node) bool {
+		rs, ok := n.(*ast.RangeStmt)
+		if !ok {
+			return true
+		}
+		sel, ok := ast.Unparen(rs.X).(*ast.SelectorExpr)
+		if !ok {
+			return true
+		}
+		if _, isField := cinfo.Selections[sel]; !isField {
+			return true
+		}
+		appends, skips := false, false
+		ast.Inspect(rs.Body, func(k ast.Node) bool {
+			switch v := k.(type) {
+			case *ast.BranchStmt:
+				if v.Tok == token.CONTINUE {
+					skips = true
+				}
+			case *ast.IfStmt:
+				ast.Inspect(v.Body, func(q ast.Node) bool {
+					if c, ok := q.(*ast.CallExpr); ok {
+						if id, ok := c.Fun.(*ast.Ident); ok && id.Name == "append" {
+							skips = true
+						}
+					}
+					return true
+				})
+			case *ast.CallExpr:
+				if id, ok := v.Fun.(*ast.Ident); ok && id.Name == "append" {
+					appends = true
+				}
+			}
+			return true
+		})
+		if appends && skips {
+			selects, field = true, sel.Sel.Name
+		}
+		return true
+	})
+	if selects {
+		m.fail("omission", wl, rl, wfr, rfr, "the writer repeats over what %s selected from %s, leaving elements out on a condition: the elements left out are never written", fn.Name(), field)
 	}
 }
 
